@@ -225,6 +225,25 @@ def gen_case(rng):
         d = rand_dur(rng, form, tags)
     if "dur:negative" in tags or "reps:bad" in tags:
         inside = False
+    if rng.random() < 0.02 and "shape:invalid" not in tags:
+        # a year that needs expanded digits: the text operations of the model
+        # answer UNMODELLED (its points carry no num_expanded_year_digits)
+        which = s if s != "-" else e
+        t = which.split()
+        t[1] = rng.choice(["-1", "10000", "-400", "12345"])
+        if t[0] == "W":
+            t[2] = "1"
+        if t[0] == "O":
+            t[2] = "1"
+        if t[0] == "C":
+            t[2], t[3] = "1", "1"
+        new = " ".join(t)
+        if s != "-":
+            s = new
+        else:
+            e = new
+        tags.append("year:outside")
+        inside = False
     tags.append("reps:" + ("none" if reps == "-" else "one" if reps == "1" else "many" if reps not in ("0", "-1") else "bad"))
     for p in (s, e):
         if p != "-":
